@@ -267,8 +267,8 @@ func checkStorm(t ev.TB, c Storm, labels ...string) {
 		}
 	}
 	if f != nil && f.inconclusive {
-		ev.Count("inconclusive_cases", 1)
-		t.Fatalf("VERIF-INCONCLUSIVE %s", f.msg)
+		ev.Inconclusive(t, f.msg)
+		return
 	}
 	if f != nil {
 		ev.Fail(t, "storm", c, "%s", f.msg)
